@@ -79,6 +79,7 @@ package prolog
 //@   ensures[done-records-exhaustion] gf(exhausted, s) == 1 ==> s.done
 //@   ensures[finished-means-false-without-communication] old(s.closed) || old(s.done) ==> !result && ghost(chanops) == 0
 //@   ensures[false-means-finished] !result ==> s.closed || s.done
+//@   ensures[next-never-closes] s.closed == old(s.closed) && ghost("closed:more") == 0
 
 //@ func (*Solutions).Close
 //@   property C12
